@@ -716,6 +716,8 @@ def check_contacts(ctx, cases, results):
                 ctx.fail("compute_contacts(soft_min): error behaviour differs from the model", c, observed=r,
                          expected=name, tags={"kind": "contacts", "explained_by": None})
             continue
+        if "err" in r and contacts_expected(r) == "(HErr EZeroSize)" and any(not sl for row in v[1:] for sl in row):
+            continue   # repaired behaviour: an empty designated set is refused, as the hard minimum does
         if "err" in r:
             ctx.fail("compute_contacts(soft_min) raises %s where the model returns distances" % r["err"], c,
                      observed=r, expected="distances", tags={"kind": "contacts", "explained_by": None})
@@ -1062,7 +1064,7 @@ def check_density(ctx, cases, results):
 def gen_rdf_case(rng, i):
     c = gen_geom_case(rng, "rdf", n_res=rng.randint(2, 5))
     na = top_natoms(c["top"])
-    c["box"] = gen_box(rng, 160, 330)
+    c["box"] = gen_box(rng, 160, 330) if rng.random() < 0.5 else [gen_box(rng, 160, 330) for _ in c["xyz"]]
     c["periodic"] = rng.random() < 0.7
     npairs = rng.randint(1, 25)
     c["pairs"] = [rng.sample(range(na), 2) for _ in range(npairs)]
@@ -1086,7 +1088,7 @@ def gen_rdf_case(rng, i):
         c["bin_width"] = [w * 8 - rng.randint(1, 7 if n > 1 else 3), 64 * 8] if n * 8 // 7 == n else [w, 64]
     else:              # decimal settings (not representable): default range and/or decimal widths
         c["r_range"] = None if rng.random() < 0.5 else [list(float(x).as_integer_ratio()) for x in
-                                                        rng.choice([(0.0, 0.9), (0.1, 1.3), (0.25, 2.0), (0.0, 3.0)])]
+                                                        rng.choice([(0.0, 0.9), (0.1, 1.3), (0.25, 2.0), (0.0, 3.0), (0.0, 0.3), (0.0, 0.7)])]
         if rng.random() < 0.5:
             c["n_bins"], c["bin_width"] = rng.choice([3, 7, 10, 25]), None
         else:
@@ -1101,8 +1103,9 @@ def rdf_coq_case(c, tol="1e-5"):
         b = "(inl %s)" % cnat(c["n_bins"])
     else:
         b = "(inr %s)" % cq(c["bin_width"] or list((0.005).as_integer_ratio()))
-    return "(%s, %s, %s, %s, %s, %s, %s, %s, %s)" % (cqf(tol), cz(UNIT), cq(rr[0]), cq(rr[1]), b, c_pairs_nat(c["pairs"]),
-                                                     c_vec(c["box"]), cbool(c["periodic"]), c_frames(c["xyz"]))
+    frames = clist(["(%s, %s)" % (c_vec(bx), clist([c_vec(v) for v in f])) for bx, f in zip(box_per_frame(c), c["xyz"])])
+    return "(%s, %s, %s, %s, %s, %s, %s, %s)" % (cqf(tol), cz(UNIT), cq(rr[0]), cq(rr[1]), b, c_pairs_nat(c["pairs"]),
+                                                 cbool(c["periodic"]), frames)
 
 
 def check_rdf(ctx, cases, results):
@@ -1336,10 +1339,39 @@ CHECKS = {"contacts": check_contacts, "squareform": check_squareform, "centres":
           "karplus": check_karplus, "dipole": check_dipole}
 
 
+def fixed_probes():
+    """the witnesses of the recorded findings and a few hand-made corner cases always run first"""
+    ala = ["ALA", 0, [["N", "N"], ["CA", "C"], ["CB", "C"], ["C", "C"], ["O", "O"]]]
+    gly = ["GLY", 0, [["N", "N"], ["CA", "C"], ["C", "C"], ["O", "O"]]]
+    hoh = ["HOH", 0, [["O", "O"], ["H1", "H"], ["H2", "H"]]]
+    top = [ala, gly, hoh, ala, ala]
+    xyz = [[[13 * (3 * a + k) % 97 + 7 * a for k in range(3)] for a in range(top_natoms(top))]]
+    base = {"kind": "contacts", "top": top, "unit": UNIT, "xyz": xyz, "box": None, "periodic": False,
+            "beta": None, "squareform": True}
+    out = [dict(base, scheme="ca", contacts=[[0, 3], [0, 2], [1, 4]], as_array=True, soft_min=False),
+           dict(base, scheme="ca", contacts=[[0, 3], [0, 2], [1, 4]], as_array=False, soft_min=False),
+           dict(base, scheme="sidechain", contacts=[[0, 3], [0, 1]], as_array=False, soft_min=True),
+           dict(base, scheme="sidechain", contacts=[[0, 3], [0, 1]], as_array=False, soft_min=False),
+           dict(base, scheme="closest", contacts=[[0, 1], [0, 4]], as_array=False, soft_min=True),
+           dict(base, scheme="closest-heavy", contacts="all", soft_min=False),
+           dict(base, scheme="sidechain-heavy", contacts="all", soft_min=False, ignore_nonprotein=False)]
+    two = [["NA", 0, [["NA", "Na"]]], ["CL", 0, [["CL", "Cl"]]]]
+    out.append({"kind": "rg", "top": two, "unit": UNIT, "xyz": [[[0, 0, 0], [256, 0, 0]]], "box": None,
+                "masses": [[1, 1], [3, 1]]})
+    out.append({"kind": "dipole", "top": two, "unit": UNIT, "xyz": [[[64, 0, 0], [0, 0, 0]]], "box": [1024] * 3,
+                "charges": [[16, 16], [-16, 16]]})
+    for rr, bw in (((0.0, 0.3), 0.1), ((0.0, 0.7), 0.1), ((0.0, 1.0), 0.005)):
+        out.append({"kind": "rdf", "top": two, "unit": UNIT, "xyz": [[[0, 0, 0], [20, 0, 0]], [[0, 0, 0], [0, 37, 0]]],
+                    "box": [256, 256, 256], "periodic": True, "pairs": [[0, 1]], "opt": None,
+                    "r_range": [list(float(x).as_integer_ratio()) for x in rr], "n_bins": None,
+                    "bin_width": list(float(bw).as_integer_ratio())})
+    return out
+
+
 def build_cases(ctx):
     rng = ctx.rng
     quick = ctx.tier == "quick"
-    cases = []
+    cases = fixed_probes()
     for i in range(150 if quick else 1500):
         cases.append(gen_contacts_case(rng, i))
     for i in range(30 if quick else 300):
@@ -1372,7 +1404,19 @@ def correspond(ctx):
 
 
 def search(ctx, broken):
-    pass
+    """A theorem or the tie broke and the correspondence run found no failing input: the correspondence already
+    compares the implementation with the documented closed forms (spec_* definitions and the float64 oracles),
+    so the search is a second, larger batch of the same comparison on fresh inputs."""
+    rng = ctx.rng
+    extra = []
+    for i in range(200):
+        extra.append(gen_contacts_case(rng, i))
+    extra += [gen_centres_case(rng) for _ in range(40)] + [gen_rg_case(rng) for _ in range(40)]
+    extra += [gen_geom_case(rng, "shape") for _ in range(40)] + [gen_density_case(rng) for _ in range(30)]
+    extra += [gen_rdf_case(rng, i) for i in range(60)] + [gen_drid_case(rng) for _ in range(40)]
+    extra += [gen_karplus_case(rng) for _ in range(40)]
+    ctx.log("search: %d extra cases" % len(extra))
+    run_cases(ctx, extra)
 
 
 def replay(ctx, rec):
